@@ -13,6 +13,9 @@ import ClarabelProofs.Props.C09
 import ClarabelProofs.Props.C16
 import Mathlib.Analysis.SpecialFunctions.Exp
 import ClarabelProofs.Props.C05Full
+import ClarabelProofs.Props.C05Cones
+import ClarabelProofs.Props.C05Equiv
+import ClarabelProofs.Props.C05Idem
 
 namespace Clarabel.C05
 open Clarabel Clarabel.Step Clarabel.Lemmas Matrix
